@@ -2,7 +2,7 @@
 use alloc::{vec, vec::Vec};
 use core::iter::zip;
 
-use anyhow::{anyhow, Result};
+use anyhow::{anyhow, ensure, Result};
 use hashbrown::HashMap;
 use itertools::{zip_eq, Itertools};
 
@@ -139,6 +139,21 @@ pub trait WitnessWrite<F: Field> {
         )?;
         self.set_cap_target(&proof_target.quotient_polys_cap, &proof.quotient_polys_cap)?;
 
+        // The openings are assigned through their flattened FRI batches, which only pin the total number of values:
+        // compare each opening vector with its targets, as the native shape validation does with the circuit data.
+        let (ot, o) = (&proof_target.openings, &proof.openings);
+        ensure!(
+            ot.constants.len() == o.constants.len()
+                && ot.plonk_sigmas.len() == o.plonk_sigmas.len()
+                && ot.wires.len() == o.wires.len()
+                && ot.plonk_zs.len() == o.plonk_zs.len()
+                && ot.plonk_zs_next.len() == o.plonk_zs_next.len()
+                && ot.partial_products.len() == o.partial_products.len()
+                && ot.quotient_polys.len() == o.quotient_polys.len()
+                && ot.lookup_zs.len() == o.lookup_zs.len()
+                && ot.next_lookup_zs.len() == o.lookup_zs_next.len(),
+            "The openings of the proof do not have the shape of their targets."
+        );
         self.set_fri_openings(
             &proof_target.openings.to_fri_openings(),
             &proof.openings.to_fri_openings(),
